@@ -595,8 +595,7 @@ process_config_every_time (BusContext      *context,
   if (context->connections)
     {
       _dbus_verbose ("Reload policy rules for completed connections\n");
-      retval = bus_connections_reload_policy (context->connections, error);
-      if (!retval)
+      if (!bus_connections_reload_policy (context->connections, error))
         {
           _DBUS_ASSERT_ERROR_IS_SET (error);
           goto failed;
